@@ -5,4 +5,14 @@ MCThreads == {1, 2}
 MCProgram == [t \in MCThreads |->
     IF t = 1 THEN << [k |-> "print", id |-> 1, n |-> 2], [k |-> "print", id |-> 2, n |-> 1] >>
     ELSE << [k |-> "update", v |-> 1, h |-> 3], [k |-> "refresh"], [k |-> "update", v |-> 2, h |-> 1] >>]
+\* three threads: two printers and one that shrinks the frame
+MCThreads3 == {1, 2, 3}
+MCProgram3 == [t \in MCThreads3 |->
+    IF t = 1 THEN << [k |-> "print", id |-> 1, n |-> 1] >>
+    ELSE IF t = 2 THEN << [k |-> "print", id |-> 2, n |-> 2], [k |-> "refresh"] >>
+    ELSE << [k |-> "update", v |-> 1, h |-> 2], [k |-> "update", v |-> 2, h |-> 1] >>]
+\* only refreshes and updates (every call holds the live lock from hook to write): must hold even in the faithful design
+MCProgramR == [t \in MCThreads |->
+    IF t = 1 THEN << [k |-> "update", v |-> 1, h |-> 3], [k |-> "refresh"] >>
+    ELSE << [k |-> "refresh"], [k |-> "update", v |-> 2, h |-> 1], [k |-> "refresh"] >>]
 =============================================================================
